@@ -337,10 +337,23 @@ fn one_image<K: SimKey>(case: &Case, disk: &Disk, allowed: &[BTreeMap<K, usize>]
             }
         }
         // ---- clean-up ---------------------------------------------------------------------------
-        let before = with_sim(|s| crate::exec::disk_image(&s.disk));
-        let st = w.stats.take().expect("stats kept");
         let which = rng.below(3);
         let qdir = w.base.join("q");
+        // a quarantine directory that is not empty: it already holds a file under the name of one of the
+        // orphans (left by an earlier, interrupted quarantine of the same content). The orphan must
+        // still leave cas/ and end up there with its own bytes (seeded change C08-e).
+        if which == 1 && rng.chance(1, 2) {
+            if let Some(h) = exp.orphaned.iter().next() {
+                let name = qdir.join(hex32(h));
+                let r = interpose::enter(|| std::fs::create_dir_all(&qdir).and_then(|_| std::fs::write(&name, b"left by an earlier quarantine")));
+                if let Err(e) = r {
+                    return Err(fail(&["C08"], "harness-plant", 0, format!("{tag}: could not pre-populate the quarantine directory: {e}")));
+                }
+                *out.site_counts.entry("probe:quarantine-name-collision".into()).or_insert(0) += 1;
+            }
+        }
+        let before = with_sim(|s| crate::exec::disk_image(&s.disk));
+        let st = w.stats.take().expect("stats kept");
         let cleanup_res: Result<(), Failure> = (|| {
             match which {
                 0 => {
